@@ -650,9 +650,12 @@ func (cr *checkRun) runSelftest() {
 			k := ((cr.seed % n) + n) % n
 			sel = append(append([]SelftestEntry(nil), sel[k:]...), sel[:k]...)
 		}
-		selftestDeadline = time.Now().Add(6 * time.Second)
+		selftestDeadline = time.Now().Add(2 * time.Second)
+		if len(sel) > 3 {
+			sel = sel[:3] // the quick tier samples the corpus (rotating with VERIF_SEED); thorough runs all of it
+		}
 	}
-	res := runSelftests(sel, cr.p.repoDir, opts, 4)
+	res := runSelftests(sel, cr.p.repoDir, opts, 3)
 	mf := map[string]interface{}{}
 	run, rej, stale, skipped := 0, 0, 0, 0
 	var problems []string
